@@ -359,12 +359,6 @@ theorem recolumn_single (cols : Option (List String)) (s : Bool) (f : Frame) (h 
     have hm : isMulti f = false := by rcases h with h | h; cases h; exact h
     cases cols <;> simp [recolumnLeaf, hm]
 
-/-- the column pass of `df_sync` on one member (`columns=None`: nothing) -/
-def colPass (ch : Option How) (hdrs : List (List String)) (l : Leaf) : Res Leaf :=
-  match ch with
-  | Option.none => .ok l
-  | some c => recolumnLeaf (joinCols c hdrs) l
-
 /-! ### containers, position by position: member `k` of the result is the aligned member `k` of the input -/
 
 /-- `df_sync` works member by member: the result has as many members as the input, and member `k` of the result is
@@ -594,6 +588,95 @@ theorem sync_index_outer (m : Option Dir) (ch : Option How) (tag : Tag) (kids : 
       exact ⟨s, f, hl, by rw [e]; exact ht⟩
     · rintro ⟨s, f, hl, ht⟩; exact ⟨f.idx, (hmem _).mpr ⟨s, f, hl, rfl⟩, ht⟩
 
+/-! ### an explicit index as join policy; keyword arguments of a presync-decorated function -/
+
+/-- with a policy word `syncJ` is `sync`: all theorems above apply -/
+theorem syncJ_how (h : How) (m : Option Dir) (ch : Option How) (t : Tree) : syncJ (.how h) m ch t = sync h m ch t := rfl
+
+/-- `df_sync(dfs, join=<explicit index>)`: as soon as the container holds a timeseries, member `k` of the result is
+member `k` of the input reindexed onto EXACTLY the supplied index (then put on the common column set), the number of
+members is kept and the container structure too -/
+theorem sync_explicit_member (ix : List Int) (m : Option Dir) (ch : Option How) (tag : Tag) (kids : List (String × Tree))
+    (t' : Tree) (hts : tsIndexes (Tree.node tag kids).flatTop ≠ [])
+    (h : syncJ (.explicit ix) m ch (.node tag kids) = .ok t') :
+    t'.skel = (Tree.node tag kids).skel ∧ t'.leaves.length = (Tree.node tag kids).leaves.length ∧
+    ∀ (k : Nat) (s : Bool) (f : Frame), (Tree.node tag kids).leaves[k]? = some (.ts s f) →
+      ∃ l', t'.leaves[k]? = some l' ∧
+        colPass ch (multiCols (Tree.node tag kids).flatTop) (.ts s (reindexFrame f ix m)) = .ok l' := by
+  have hne : (tsIndexes (Tree.node tag kids).flatTop).isEmpty = false := by
+    cases hl : tsIndexes (Tree.node tag kids).flatTop with
+    | nil => exact (hts hl).elim
+    | cons _ _ => rfl
+  have hix : dfIndexJ (.explicit ix) (Tree.node tag kids).flatTop = .ok (.times ix) := by simp [dfIndexJ, hne]
+  simp only [syncJ, hix] at h
+  split at h
+  · cases h
+  · rename_i t1 h1
+    simp only [reindexTree] at h1
+    have p1 := pairs_mapM _ _ _ h1
+    have s1 := skel_mapM _ (reindexLeaf_skel _ m) _ _ h1
+    cases ch with
+    | none =>
+      simp at h; subst h
+      refine ⟨s1, p1.length_eq, fun k s f hk => ?_⟩
+      obtain ⟨l1, hl1, hr⟩ := p1.get k _ hk
+      simp [reindexLeaf] at hr; subst hr
+      exact ⟨_, hl1, rfl⟩
+    | some c =>
+      simp only at h
+      have p2 := pairs_mapM _ _ _ h
+      have p := p1.comp p2
+      refine ⟨by rw [skel_mapM _ (recolumnLeaf_skel _) _ _ h]; exact s1, p.length_eq, fun k s f hk => ?_⟩
+      obtain ⟨l', hl', l1, hr, hc⟩ := p.get k _ hk
+      simp [reindexLeaf] at hr; subst hr
+      exact ⟨l', hl', hc⟩
+
+/-- a `presync`-decorated function called with positional AND keyword arguments: both the tuple of positional arguments
+and the dict of keyword arguments keep their structure, and member `k` of either is that member reindexed onto the ONE
+joint index computed over `list(args) + list(kwargs.values())` -/
+theorem presync_call_member (j : Join) (m : Option Dir) (args kwargs : List (String × Tree)) (a k : Tree)
+    (h : presyncCall j m args kwargs = .ok (a, k)) :
+    ∃ ix, dfIndexJ j (flatKids (args ++ kwargs)) = .ok ix ∧
+      a.skel = (Tree.node .tuple args).skel ∧ k.skel = (Tree.node .dict kwargs).skel ∧
+      (∀ (i : Nat) (l : Leaf), (Tree.node .tuple args).leaves[i]? = some l →
+        ∃ l', reindexLeaf ix m l = .ok l' ∧ a.leaves[i]? = some l') ∧
+      (∀ (i : Nat) (l : Leaf), (Tree.node .dict kwargs).leaves[i]? = some l →
+        ∃ l', reindexLeaf ix m l = .ok l' ∧ k.leaves[i]? = some l') := by
+  simp only [presyncCall] at h
+  split at h
+  · cases h
+  · rename_i ix hix
+    split at h
+    · cases h
+    · rename_i a' ha
+      split at h
+      · cases h
+      · rename_i k' hk
+        cases h
+        have skel_of : ∀ t t1, reindexTree ix m t = .ok t1 → t1.skel = t.skel := by
+          intro t t1 h1
+          cases ix with
+          | none => simp [reindexTree] at h1; subst h1; rfl
+          | times idx => exact skel_mapM _ (reindexLeaf_skel _ m) _ _ h1
+          | len n => exact skel_mapM _ (reindexLeaf_skel _ m) _ _ h1
+        refine ⟨ix, hix, skel_of _ _ ha, skel_of _ _ hk, ?_, ?_⟩
+        · intro i l hl
+          obtain ⟨l', h1, h2⟩ := (pairs_reindexTree ix m _ _ ha).get i l hl
+          exact ⟨l', h2, h1⟩
+        · intro i l hl
+          obtain ⟨l', h1, h2⟩ := (pairs_reindexTree ix m _ _ hk).get i l hl
+          exact ⟨l', h2, h1⟩
+
+/-- the joint index of a call: with a policy word the join of the indices of the timeseries among ALL arguments,
+positional and keyword; with an explicit index that index (as soon as one argument is a timeseries) -/
+theorem presync_call_index (j : Join) (ls : List Leaf) :
+    dfIndexJ j ls = match j with
+      | .how h => .ok (dfIndex h ls)
+      | .explicit ix => if tsIndexes ls = [] then (if arrLens ls = [] then .ok .none else .error .other) else .ok (.times ix) := by
+  cases j with
+  | how h => rfl
+  | explicit ix => simp [dfIndexJ, List.isEmpty_iff]
+
 /-! ### non-vacuity -/
 
 example : joinIndex .inner [[1, 2, 4, 7], [2, 3, 4], [0, 2, 4, 9]] = some [2, 4] := by decide
@@ -622,6 +705,16 @@ example : let t : Tree := .node .list [("", .leaf (.ts true { idx := [1, 2, 4], 
      | .ok t' => t'.leaves.map fun l => match l with | .ts _ f => some f | _ => Option.none
      | .error _ => []) =
       [some { idx := [2, 4], cols := [("", [some 1, some 3])] }, some { idx := [2, 4], cols := [("", [some 5, some 6])] }, Option.none] := by
+  decide
+/-- `sync_explicit_member` / `presync_call_member`: an explicit index, a keyword argument -/
+example : let s1 : Frame := { idx := [1, 2, 4], cols := [("", [some 1, Option.none, some 3])] }
+    let s2 : Frame := { idx := [2, 3], cols := [("", [some 5, some 6])] }
+    tsIndexes (Tree.node .list [("", .leaf (.ts true s1))]).flatTop ≠ [] ∧
+    (match presyncCall (.explicit [0, 2, 3]) (some .ffill) [("", .leaf (.ts true s1))] [("k", .leaf (.ts true s2))] with
+     | .ok (a, k) => (a.leaves ++ k.leaves).map fun l => match l with | .ts _ f => some f | _ => Option.none
+     | .error _ => []) =
+      [some { idx := [0, 2, 3], cols := [("", [Option.none, some 1, some 1])] },
+       some { idx := [0, 2, 3], cols := [("", [Option.none, some 5, some 6])] }] := by
   decide
 example : alignArr 2 [some 1, some 2, some 3] = [some 2, some 3] ∧
     alignArr 4 [some 1, some 2] = [Option.none, Option.none, some 1, some 2] ∧ alignArr 0 [some 1] = [] := by decide
